@@ -271,6 +271,16 @@ def check(ctx: Ctx):
     nm = [n for n in walk_no_nested(cff.node) if isinstance(n, ast.Assign) and isinstance(n.value, ast.DictComp) and "avg_cost" in norm(n.value)]
     ctx.check(len(nm) == 1 and norm(nm[0].value) == "{d: c - avg_cost for d, c in msg_costs.items()}", "R-MARGINAL", "costs_for_factor: normalisation shifts every value by the same constant", cff,
               nm[0] if nm else cff.node, "normalisation must not change the differences between values")
+    # every exit returns the normalised table (own costs + other factors' costs): no shortcut that sends something else, e.g. an all-zero table for a
+    # leaf variable, which would hide the variable's own costs from the rest of the graph
+    rets_c = [r for r in walk_no_nested(cff.node) if isinstance(r, ast.Return)]
+    okr = len(rets_c) >= 1 and all(r.value is not None and (norm(r.value) == (norm(nm[0].targets[0]) if nm else "?") or (nm and norm(r.value) == norm(nm[0].value))) for r in rets_c)
+    ctx.check(okr, "R-MARGINAL", "costs_for_factor: every exit returns the normalised (own cost + other factors) table", cff, next((r for r in rets_c if not nm or norm(r.value) not in (norm(nm[0].targets[0]), norm(nm[0].value))), cff.node),
+              "a shortcut exit (nothing heard from the other factors yet, leaf variable) that returns anything else drops the variable's own costs from the message")
+    for fq in (fcv,):
+        rets_f = [r for r in walk_no_nested(fq.node) if isinstance(r, ast.Return)]
+        ctx.check(len(rets_f) == 1 and norm(rets_f[0].value) == "costs", "R-MARGINAL", "factor_costs_for_var: the single exit returns the table of marginals", fq, rets_f[0] if rets_f else fq.node,
+                  "a shortcut exit returning anything else sends a message that is not the marginal of the factor")
     # ---- selection ---------------------------------------------------------------------
     M.check_minmax_selection(ctx, sel, "R-MODE.b", min_instances=2)
     t = norm(sel.node)
@@ -399,13 +409,70 @@ def check(ctx: Ctx):
         ctx.check(dflt[1] == 0, "R-STABILITY", "default stability tolerance is 0", repo.module(MS), dflt[0],
                   f"default tolerance {dflt[1]}: a message whose relative change is below it is treated as unchanged and dropped after SAME_COUNT sends, "
                   "so a late small correction never reaches the neighbour and the selected assignment can differ from the optimum on a tree")
+    _params(ctx, repo)
     sc = repo.module(MS).constants.get("SAME_COUNT")
     ctx.check(sc is not None and isinstance(sc.value, int) and sc.value >= 1, "R-CUTOFF", "SAME_COUNT is a positive integer", repo.module(MS), sc or repo.module(MS).tree, "")
+
+
+def _params(ctx, repo):
+    """'without damping and noise' is a statement about the *parameters*: each computation must read every parameter it uses under the parameter's own
+    name.  The four constructors store damping / damping_nodes / stability / start_messages and hand `noise` to VariableNoisyCostFunc (only when it is
+    not 0): each value is traced to `<algo>.params['<name>']` / `param_value('<name>')` with the matching name; a value that reaches the field any other
+    way (positional tuple, record filled in another order) cannot be established and is reported."""
+    ctx.rule("R-PARAMS", "every Max-Sum parameter a computation stores is read under its own name (stability, noise, damping, damping_nodes, start_messages)")
+    want = {"damping": "damping", "damping_nodes": "damping_nodes", "stability_coef": "stability", "start_messages": "start_messages"}
+
+    def key_of(e, f):
+        """the parameter name an expression reads, through single-definition locals"""
+        for _ in range(4):
+            if isinstance(e, ast.Name):
+                defs = [a.value for a in walk_no_nested(f.node) if isinstance(a, ast.Assign) and len(a.targets) == 1 and norm(a.targets[0]) == e.id]
+                if len(defs) != 1:
+                    return None
+                e = defs[0]
+                continue
+            break
+        if isinstance(e, ast.Subscript) and norm(e.value).endswith(".params") and isinstance(e.slice, ast.Constant):
+            return e.slice.value
+        if isinstance(e, ast.Call) and isinstance(e.func, ast.Attribute) and e.func.attr == "param_value" and e.args and isinstance(e.args[0], ast.Constant):
+            return e.args[0].value
+        return None
+    n = 0
+    for mod in (MS, AMS):
+        for cn in ("MaxSumFactorComputation", "MaxSumVariableComputation"):
+            ini = repo.func(mod, f"{cn}.__init__")
+            ctx.touch(ini)
+            for a in walk_no_nested(ini.node):
+                if isinstance(a, ast.Assign) and len(a.targets) == 1 and is_self_attr(a.targets[0]) and a.targets[0].attr in want:
+                    n += 1
+                    k = key_of(a.value, ini)
+                    ctx.check(k == want[a.targets[0].attr], "R-PARAMS", f"{mod.split('.')[-1]}.{cn}: self.{a.targets[0].attr} = parameter '{want[a.targets[0].attr]}'", ini, a,
+                              f"read from {k!r}" if k else "cannot establish which parameter the value comes from")
+            stored = {a.targets[0].attr for a in walk_no_nested(ini.node) if isinstance(a, ast.Assign) and len(a.targets) == 1 and is_self_attr(a.targets[0])}
+            ctx.check(set(want) <= stored, "R-PARAMS", f"{mod.split('.')[-1]}.{cn}: the four common parameters are stored by the constructor", ini, ini.node, f"missing {sorted(set(want) - stored)}")
+            for c in ast.walk(ini.node):
+                if isinstance(c, ast.Call) and call_name(c) == "VariableNoisyCostFunc":
+                    n += 1
+                    nl = next((k_.value for k_ in c.keywords if k_.arg == "noise_level"), None)
+                    k = key_of(nl, ini) if nl is not None else None
+                    fs = {norm(t) for t, p_ in facts_at(FuncFacts(ini.node), c) if p_}
+                    guard = any(g.endswith("!= 0") and key_of(ast.parse(g[:-5], mode="eval").body, ini) == "noise" for g in fs)
+                    ctx.check(k == "noise" and guard, "R-PARAMS", f"{mod.split('.')[-1]}.{cn}: noise is added with the level of parameter 'noise', and only when that is not 0", ini, c,
+                              f"noise level read from {k!r}, guard {sorted(fs)}")
+    if n < 18:
+        ctx.defer(f"R-PARAMS: {n} parameter reads found, 18 confirmed by reading (4 constructors x 4 fields + 2 noise sites)")
 
 
 _F = "pydcop/algorithms/maxsum.py"
 _A = "pydcop/algorithms/amaxsum.py"
 VARIANTS = [
+    ("varmsg_neutral_shortcut_for_leaves", _F, "    # If our variable has integrated costs, add them\n    msg_costs = {d: variable.cost_for_val(d) for d in variable.domain}\n",
+     "    if not [f for f in factors if f != factor and f in costs]:\n        return {d: 0 for d in variable.domain}\n    # If our variable has integrated costs, add them\n    msg_costs = {d: variable.cost_for_val(d) for d in variable.domain}\n", "break", "R-MARGINAL"),
+    ("stability_read_from_noise", _F, ["        self.stability_coef = comp_def.algo.params[\"stability\"]\n"], ["        self.stability_coef = comp_def.algo.params[\"noise\"]\n"], "break", "R-PARAMS"),
+    ("noise_level_from_stability", _A, "                noise_level=comp_def.algo.params[\"noise\"],", "                noise_level=comp_def.algo.params[\"stability\"],", "break", "R-PARAMS"),
+    ("n_params_local", _A, ["        self.damping = comp_def.algo.params[\"damping\"]\n        self.damping_nodes = comp_def.algo.params[\"damping_nodes\"]\n        self.stability_coef = comp_def.algo.params[\"stability\"]\n        self.start_messages = comp_def.algo.params[\"start_messages\"]\n        self.logger.info(f\"Running amaxsum"],
+     ["        params = comp_def.algo.params\n        self.damping = params[\"damping\"]\n        self.damping_nodes = params[\"damping_nodes\"]\n        self.stability_coef = params[\"stability\"]\n        self.start_messages = params[\"start_messages\"]\n        self.logger.info(f\"Running amaxsum"], "neutral"),
+
     ("marginal_flip", _F, "            if (optimal_value > current_val and mode == \"min\") or (", "            if (optimal_value < current_val and mode == \"min\") or (", "break", "R-MODE.b"),
     ("marginal_identity", _F, "        optimal_value = float(\"inf\") if mode == \"min\" else -float(\"inf\")", "        optimal_value = float(\"inf\") if mode == \"max\" else -float(\"inf\")", "break", "R-MODE.c"),
     ("marginal_identity_hoisted", _F, "    for d in variable.domain:\n        # for each value d in the domain of v, calculate min cost (a)\n        # where a is any assignment where v = d\n        # cost (a) = f(a) + sum( costvar())\n        # where costvar is the cost received from our other variables\n\n        optimal_value = float(\"inf\") if mode == \"min\" else -float(\"inf\")\n",
